@@ -41,6 +41,7 @@ class EmuCheck(Check):
                "spec/RV.tla transcription of the ISA manual"]
     mc = [("Mem_MC", "Mem_MC")]
     whys = None
+    constants = 'CONSTANT Aspect = "state"\n'
 
     def stateful(self):
         return True
@@ -208,7 +209,8 @@ class C03(EmuCheck):
 
 class C04(EmuCheck):
     pid = "C04"
-    whys = C04_WHYS | {"regloadvalue", "memloads", "regs", "finalmem", "finalregs"}
+    constants = 'CONSTANT Aspect = "asks"\n'
+    whys = C04_WHYS | {"finalmem", "finalregs", "panic"}
     rule = ("the programs of C03 (overlapping stores/loads over a window partly backed by the read-only image, one program "
             "per mnemonic, random programs with loops); every question the emulator puts to the recording provider is "
             "checked against the specification's knowledge: the register / every byte of the range has never been known "
@@ -301,8 +303,8 @@ class C05(EmuCheck):
             moves = [[0, c["from"], c["to"]] for c in g[1:]]
             if not moves:
                 continue
-            if tier == "quick" and i not in flagged and len(hs[i]["moves"]) == 0 and i % 2:
-                continue
+            if tier == "quick" and i not in flagged and (i + seed) % 3:
+                continue            # quick tier: a third of the orders (rotating with the seed); thorough: all
             n = len(g[0]["ins"])
             for s in range(2 if (tier == "thorough" or i in flagged) else 1):
                 gs.append(self.abs_group("h%d_%d" % (i, s), g[0]["ins"], moves, [], rng.randrange(1 << 30), n))
